@@ -41,7 +41,7 @@ func init() {
 		Level:       "Static rules deciding named necessary conditions (no un-clamped look-ahead into the decompressed block, every access behind num < numDocs, the visitor's result alone controls the loop, writers and reader use the same block size). Partial: grouping/order of values and the re-encode arithmetic are value properties and not decided.",
 		Explanation: "LOOKAHEAD-CLAMP enumerates every []byte slice expression whose upper bound is offset+constant and requires the bound to be clamped by a comparison with len/cap of the same buffer (siblings copyStoredDocs and getDocStoredOffsets are both covered); VISIT-GUARD proves by dominance that every read and every visitor call in visitDocument is behind num < footer.numDocs and that the loop variable is defined only by the visitor's result; BLOCK-SELECT folds the constant passed to newChunkedDocumentCoder by both writers and the reader's divisor and requires them equal.",
 		NotCovered:  "grouping and order of delivered values, correctness of the merge re-encode and of the byte-copy path arithmetic",
-		Uses:        []RuleUse{{"LOOKAHEAD-CLAMP", ""}, {"VISIT-GUARD", ""}, {"BLOCK-SELECT", ""}, {"STORED-OFFSET-SOURCE", ""}, {"RESET-COMPLETE", ""}, {"ESCAPE-FRESH", ""}},
+		Uses:        []RuleUse{{"LOOKAHEAD-CLAMP", ""}, {"VISIT-GUARD", ""}, {"BLOCK-SELECT", ""}, {"STORED-OFFSET-SOURCE", ""}, {"BLOCK-CURSOR", ""}, {"RESET-COMPLETE", ""}, {"ESCAPE-FRESH", ""}},
 	})
 	prop(&Property{
 		ID:          "C08",
@@ -179,7 +179,7 @@ func init() {
 		Level:       "Static rules deciding named NECESSARY conditions: every document number written is the remapped one, location field ids use the merged map, doc values are re-added under new numbers and dropped ones skipped, the parallel per-iterator slices come from one filtered result, the byte-copy path is taken only for identical field lists without deletions, 1-hit encoding only under its full conjunction, chunk size from the footer quantities, terms inserted only with postings. Observational equality with a rebuild is a value property and is NOT decided.",
 		Explanation: "REMAP (mergeTermFreqNormLocs, buildMergedDocVals visitor, persistMergedRestField), CHUNK-AGREE (prepareNewTerm traced through its unique call chain to the values stored in the merged footer), LENPREFIX-AGREE, FASTPATH-GUARD (+ mergeFields compares every field of every segment), INSERT-GUARD, ONEHIT-GUARD, FIELD-ORDER (mergeFields), STORED-OFFSET-SOURCE, FIELDID-LANE, DV-SECTION-COMPLETE.",
 		NotCovered:  "k-way enumeration order, the re-encoding arithmetic, correctness of the stored-field byte copy (values)",
-		Uses:        []RuleUse{{"REMAP", ""}, {"CHUNK-AGREE", ""}, {"LENPREFIX-AGREE", ""}, {"FASTPATH-GUARD", ""}, {"INSERT-GUARD", ""}, {"ONEHIT-GUARD", ""}, {"FIELD-ORDER", ""}, {"STORED-OFFSET-SOURCE", ""}, {"FIELDID-LANE", ""}, {"DV-SECTION-COMPLETE", ""}},
+		Uses:        []RuleUse{{"REMAP", ""}, {"CHUNK-AGREE", ""}, {"LENPREFIX-AGREE", ""}, {"FASTPATH-GUARD", ""}, {"INSERT-GUARD", ""}, {"ONEHIT-GUARD", ""}, {"FIELD-ORDER", ""}, {"STORED-OFFSET-SOURCE", ""}, {"BLOCK-CURSOR", ""}, {"FIELDID-LANE", ""}, {"DV-SECTION-COMPLETE", ""}},
 	})
 	prop(&Property{
 		ID:          "C07",
